@@ -706,11 +706,10 @@ def generate(repo):
         outs = [ast.unparse(st.value).replace(' ', '') for st in wr.body if isinstance(st, ast.Assign) and ast.unparse(st.targets[0]) == 'out']
         if len(outs) != 1:
             return None
-        if re.fullmatch(r'np\.(empty|zeros)\(\[\*ret\.shape,2,2\],dtype=ret\.dtype\)', outs[0]) or \
-                re.fullmatch(r'np\.(empty|zeros)\(\(\*ret\.shape,2,2\),dtype=ret\.dtype\)', outs[0]):
+        if re.fullmatch(r'np\.(empty|zeros)\([\[\(]\*(\w+)\.shape,2,2[\]\)],dtype=\2\.dtype\)', outs[0]):
             return True
-        if re.fullmatch(r'np\.(empty|zeros)\(.*\)', outs[0]):
-            return False
+        if re.fullmatch(r'np\.(empty|zeros)\([\[\(]2,2,\*(\w+)\.shape[\]\)],dtype=\2\.dtype\)', outs[0]):
+            return False               # recognised: the matrix axes in front instead of behind
         return None
     g.fact('adapterForwardsArgumentsAndShape', 'prysm/x/polarization.py:jones_adapter', adapter_forwards)
 
